@@ -37,7 +37,31 @@ def cache_sites(module: Module, fn: ast.FunctionDef) -> List[Tuple[ast.AST, ast.
             out.append((n, n.slice, src(n.value)))
         elif isinstance(n, ast.Call) and isinstance(n.func, ast.Attribute) and n.func.attr in ("setdefault", "get") and is_cache(n.func.value) and n.args:
             out.append((n, n.args[0], src(n.func.value)))
+        elif isinstance(n, ast.Subscript) and is_cache(n.value) and isinstance(n.ctx, ast.Load) and _in_keyerror_try(n):
+            # EAFP form of the membership test:  try: return CACHE[KEY]  except KeyError: ... CACHE[KEY] = / CACHE.setdefault(KEY, ...)
+            out.append((_EafpLoad(n), n.slice, src(n.value)))
     return out
+
+
+class _EafpLoad(ast.Compare):
+    """A `CACHE[KEY]` load guarded by `except KeyError` - plays the role of the `KEY in CACHE` test (positions of the load)."""
+
+    def __init__(self, sub: ast.Subscript):
+        super().__init__(left=sub.slice, ops=[ast.In()], comparators=[sub.value])
+        ast.copy_location(self, sub)
+        self._parent = getattr(sub, "_parent", None)
+
+
+def _in_keyerror_try(n: ast.AST) -> bool:
+    cur, child = getattr(n, "_parent", None), n
+    while cur is not None and not isinstance(cur, (ast.FunctionDef, ast.AsyncFunctionDef, ast.Lambda)):
+        if isinstance(cur, ast.Try) and any(child is st for st in cur.body):
+            for h in cur.handlers:
+                names = {x.id for x in ast.walk(h.type) if isinstance(x, ast.Name)} if h.type is not None else set()
+                if names & {"KeyError", "LookupError", "Exception"} or h.type is None:
+                    return True
+        cur, child = getattr(cur, "_parent", None), cur
+    return False
 
 
 LOSSY_METHODS = {"split", "strip", "lstrip", "rstrip", "lower", "upper", "casefold", "title", "swapcase", "expandtabs", "splitlines"}
